@@ -379,9 +379,10 @@ pub fn run_vector(v: &Vector) -> String {
     }
     let is_group = v.fam == "future_group" || v.fam == "stream_group";
     let sub = cuts::is_subwaker_family(&v.fam) && feat() == "std";
+    let (take, limit) = if v.fam == "co" { crate::co::effective(&v.stack) } else { (-1, v.limit) };
     with(|w| {
         w.ev(format_args!(
-            "{{\"e\":\"new\",\"id\":{},\"fam\":\"{}\",\"cont\":\"{}\",\"n\":{},\"feat\":\"{}\",\"stream\":{},\"sub\":{},\"never\":[{}],\"x\":{},\"limit\":{},\"term\":\"{}\",\"stack\":{}}}",
+            "{{\"e\":\"new\",\"id\":{},\"fam\":\"{}\",\"cont\":\"{}\",\"n\":{},\"feat\":\"{}\",\"stream\":{},\"sub\":{},\"never\":[{}],\"x\":{},\"limit\":{},\"take\":{},\"nmaps\":{},\"term\":\"{}\",\"stack\":{}}}",
             serde_json::to_string(&v.id).unwrap(),
             v.fam,
             v.cont,
@@ -391,9 +392,11 @@ pub fn run_vector(v: &Vector) -> String {
             sub,
             never.join(","),
             v.x,
-            v.limit,
+            limit,
+            take,
+            v.stack.iter().filter(|a| a.as_str() == Some("map")).count(),
             v.term,
-            serde_json::to_string(&v.stack).unwrap(),
+            serde_json::to_string(&serde_json::to_string(&v.stack).unwrap()).unwrap(),
         ))
     });
     let built = catch_unwind(AssertUnwindSafe(|| {
